@@ -624,7 +624,9 @@ def fam_deep(draw, max_n=300):
 def fam_bigcheap(draw):
     """~1000..1300 atoms (indices and counts cross 999/1000) as a random tree over a few
     elements: refinement is discrete after a handful of rounds, so the pipeline costs ~0.1 s."""
-    n = draw(st.sampled_from([999, 1000, 1001, 1023, 1024, 1100, 1250]))
+    # mostly just across the 999/1000 border; sometimes far beyond it, so that index
+    # DIFFERENCES above 1000 occur as well
+    n = draw(st.sampled_from([999, 1000, 1001, 1023, 1024, 1100, 1250, 2100, 3000]))
     r = random.Random(draw(st.integers(0, 2**32)))
     pal = draw(st.sampled_from([[6, 7, 8, 16], [6, 1, 8], [14, 8], [6, 17, 55, 27]]))
     zs = [r.choice(pal) for _ in range(n)]
@@ -753,5 +755,5 @@ def listing(draw, n, m):
         # what happens to the constructed graph before it is handed to the library: nothing,
         # a relabelling that leaves the iteration order alone (labels != positions), or a
         # first canonicalization whose output (labels != positions) is used as the description
-        "post": draw(st.sampled_from(["none", "none", "relabel", "recanon"])),
+        "post": draw(st.sampled_from(["none", "none", "relabel", "recanon", "reuse"])),
     }
